@@ -35,6 +35,8 @@ pub enum CK {
     Ow,
     /// plain call of about 350 bytes: does not fit the initial receive buffer
     B,
+    /// plain call of about 5 KB: the receive buffer has to grow some twenty times for it
+    H,
 }
 
 #[derive(Clone, Debug)]
@@ -53,6 +55,7 @@ pub fn call_spec(kind: CK, id: u32) -> CallSpec {
         CK::W(..) => json!({"method": "t.Watch", "parameters": {"k": id}, "more": true}),
         CK::Ow => json!({"method": "t.Watch", "parameters": {"k": id}, "oneway": true}),
         CK::B => json!({"method": "t.Plain", "parameters": {"n": id, "tag": big_tag(id)}}),
+        CK::H => json!({"method": "t.Plain", "parameters": {"n": id, "tag": huge_tag(id)}}),
     };
     let mut frame = serde_json::to_vec(&v).unwrap();
     frame.push(0);
@@ -61,6 +64,10 @@ pub fn call_spec(kind: CK, id: u32) -> CallSpec {
 
 fn big_tag(id: u32) -> String {
     format!("big-{id}-{}", "\u{e4}bcdefghi".repeat(30))
+}
+
+fn huge_tag(id: u32) -> String {
+    format!("huge-{id}-{}", "\u{e4}bcdefghi".repeat(500))
 }
 
 fn norm(mut v: Value) -> Value {
@@ -76,6 +83,7 @@ fn expected_reply(c: &CallSpec) -> Option<Value> {
         CK::P => Some(json!({"parameters": {"n": c.id, "tag": format!("t\u{e4}g-{}", c.id)}})),
         CK::F => Some(json!({"error": "t.Failed", "parameters": {"n": c.id}})),
         CK::B => Some(json!({"parameters": {"n": c.id, "tag": big_tag(c.id)}})),
+        CK::H => Some(json!({"parameters": {"n": c.id, "tag": huge_tag(c.id)}})),
         CK::O | CK::Of | CK::W(..) | CK::Ow => None,
     }
 }
@@ -268,7 +276,7 @@ impl<'a> Sim<'a> {
             let Some(c) = self.conns[i].queue.pop_front() else { break };
             let conn = &mut self.conns[i];
             match c.kind {
-                CK::P | CK::O | CK::B => conn.handled.push((c.id, 'P', matches!(c.kind, CK::O))),
+                CK::P | CK::O | CK::B | CK::H => conn.handled.push((c.id, 'P', matches!(c.kind, CK::O))),
                 CK::F | CK::Of => conn.handled.push((c.id, 'F', matches!(c.kind, CK::Of))),
                 CK::W(..) => conn.handled.push((c.id, 'W', false)),
                 CK::Ow => conn.handled.push((c.id, 'W', true)),
@@ -703,6 +711,7 @@ pub fn ck_name(k: &CK) -> String {
         CK::W(n, e) => format!("W{n}{}", if *e { "e" } else { "o" }),
         CK::Ow => "Ow".into(),
         CK::B => "B".into(),
+        CK::H => "H".into(),
     }
 }
 pub fn ck_parse(s: &str) -> CK {
@@ -713,6 +722,7 @@ pub fn ck_parse(s: &str) -> CK {
         "Of" => CK::Of,
         "Ow" => CK::Ow,
         "B" => CK::B,
+        "H" => CK::H,
         w => CK::W(w[1..2].parse().unwrap(), w.ends_with('e')),
     }
 }
